@@ -479,10 +479,18 @@ class Samples(BaseSamples):
         self.evidence_error = self.xp.sqrt(
             self.xp.sum((self.weights - self.evidence) ** 2) / (n * (n - 1))
         )
-        self.log_evidence_error = self.xp.abs(
-            self.evidence_error / self.evidence
-        )
+        # Relative error from max-shifted weights: the ratio is invariant
+        # under a common scale, and the shifted weights cannot overflow
         log_w = self.log_w - self.xp.max(self.log_w)
+        scaled_weights = self.xp.exp(log_w)
+        scaled_evidence = self.xp.sum(scaled_weights) / n
+        self.log_evidence_error = self.xp.abs(
+            self.xp.sqrt(
+                self.xp.sum((scaled_weights - scaled_evidence) ** 2)
+                / (n * (n - 1))
+            )
+            / scaled_evidence
+        )
         self.effective_sample_size = self.xp.exp(
             asarray(logsumexp(log_w) * 2 - logsumexp(log_w * 2), self.xp)
         )
